@@ -79,6 +79,7 @@ type Node struct {
 	Prepend string // Process.Prepend (a launcher such as "nice -n 10")
 	PadTo   int
 	GlueIn  bool // in-path placeholders glued to an option: -i={i:x}
+	NoSpawn bool // Process.Spawn = false (a documented field the library ignores)
 	// TagArgs: "port.key" names of tags (scipipe qualifies a task's tags with the
 	// in-port they arrived on) whose values the command receives through
 	// {t:port.key} placeholders (as -p tg_<port>_<key>=<value>: they enter the result)
